@@ -85,6 +85,20 @@ impl Sp for Shifted {
     }
 }
 
+thread_local! {
+    /// number of times a generated map_err function was invoked (C17; DESIGN.md 3.5's exception)
+    pub static MAPERR_CALLS: std::cell::Cell<u64> = std::cell::Cell::new(0);
+}
+pub fn maperr_calls_reset() {
+    MAPERR_CALLS.with(|c| c.set(0))
+}
+pub fn maperr_calls() -> u64 {
+    MAPERR_CALLS.with(|c| c.get())
+}
+fn maperr_bump() {
+    MAPERR_CALLS.with(|c| c.set(c.get() + 1))
+}
+
 pub fn fnv_step(h: u64, c: char) -> u64 {
     (h ^ (c as u64)).wrapping_mul(0x100000001b3)
 }
@@ -850,9 +864,19 @@ impl<'s, I: Kind<'s>, R: Er<'s, I>> Bld<'s, I, R> {
             MapErr(a, t, ws) => {
                 let t = *t;
                 if *ws {
-                    self.build(a).map_err_with_state(move |e: R, _s, _st| e.mark(t)).boxed()
+                    self.build(a)
+                        .map_err_with_state(move |e: R, _s, _st| {
+                            maperr_bump();
+                            e.mark(t)
+                        })
+                        .boxed()
                 } else {
-                    self.build(a).map_err(move |e: R| e.mark(t)).boxed()
+                    self.build(a)
+                        .map_err(move |e: R| {
+                            maperr_bump();
+                            e.mark(t)
+                        })
+                        .boxed()
                 }
             }
             Memo(a) => self.build(a).memoized().boxed(),
